@@ -189,15 +189,15 @@ Proof.
     assert (Hm : forall m, (exists x, In x readies /\ t_nonce x = m) <-> lo <= m < lo + N.of_nat (length readies)).
     { intro m. rewrite <- seqN_in, <- Hseq, in_map_iff. split; intros (x & H1 & H2); exists x; auto. }
     split.
-    { destruct (proj2 (Hm lo)) as (x & Hx & En); [lia|].
-      assert (Ox : okv p x) by (apply Ok2, Rm; auto). destruct Ox as [Ox _]. rewrite (Fa x Hx) in Ox. lia. }
+    { destruct (proj2 (Hm lo)) as (x & Hx & En); [clear -Hlen; lia|].
+      assert (Ox : okv p x) by (apply Ok2, Rm; auto). destruct Ox as [Ox _]. rewrite (Fa x Hx) in Ox. clear -Ox En. lia. }
     split; [exact Hm|].
     rewrite NB, N.eqb_refl. destruct (rev readies) as [|t tl] eqn:Er.
     { apply (f_equal (@rev tx)) in Er. rewrite rev_involutive in Er. cbn in Er. congruence. }
     assert (Hr : readies = rev tl ++ [t]).
     { apply (f_equal (@rev tx)) in Er. rewrite rev_involutive in Er. cbn in Er. auto. }
     assert (Hl : last (map t_nonce readies) 0 = t_nonce t) by (rewrite Hr, map_app; cbn; apply last_last).
-    rewrite Hseq, seqN_last in Hl by auto. lia. }
+    rewrite Hseq, seqN_last in Hl by auto. clear -Hl Hlen. lia. }
   destruct (l_empty l5) eqn:Em.
   - apply l_empty_items in Em. apply FIN; auto.
     intro b. cbn [queue set_queue]. rewrite lst_adel, Q5. cbn [queue put_q set_queue]. rewrite lst_aset.
